@@ -46,7 +46,8 @@ class HomeoImpl:
             if acc.pos is not None or acc.neg is not None:
                 raise MachineryFailure("accumulator not empty before the call")
             try:
-                self.trainer(None if op["tinv"] == 0 else 1.0 / op["tinv"])
+                cells = {"all": None, "this": ["cell"], "other": ["someone-else"]}[op.get("sel", "all")]
+                self.trainer(None if op["tinv"] == 0 else 1.0 / op["tinv"], cells=cells)
             except Exception:
                 return {"t": "raises"}
             acc = getattr(self.layer.connection.updater, self.param)
